@@ -24,6 +24,21 @@ import (
 func init() {
 	sim.OtherEngines["cli"] = RunWorker
 	sim.OtherReplays["cli"] = ReplayFile
+	sim.OtherDumps["cli"] = func(verifSeed uint64, prop string, n int64, binDir string) string {
+		var sb strings.Builder
+		dir, _ := os.MkdirTemp(filepath.Dir(binDir), "clidump")
+		defer os.RemoveAll(dir)
+		for i := int64(0); i < n; i++ {
+			s := Gen(sim.RunSeed(verifSeed, prop, i))
+			_, o, vs, err := runOne(s, binDir, filepath.Join(dir, "w"))
+			if err != nil {
+				fmt.Fprintf(&sb, "%d error %v\n", i, err)
+				continue
+			}
+			fmt.Fprintf(&sb, "%d %016x v=%d exit=%d\n", i, obsHash(o), len(vs), o.Exit)
+		}
+		return sb.String()
+	}
 }
 
 // File states (the fault kinds of S9).
